@@ -14,11 +14,12 @@ LEVEL = 'other'
 REQUIRED_THEOREMS = ['Properties.C19.' + n for n in ('result_dtype_eq_input', 'promote_assoc', 'fresh_constant_counterexample',
     'dot_two_precisions', 'dot_two_precisions_gamma', 'linear_two_precisions', 'affine_two_precisions', 'affine_inverse_two_precisions',
     'affine_chain_two_precisions', 'composite_error', 'sum_log_error', 'leaky_relu_error', 'exp_error', 'exact_is_u_zero', 'two_precisions_example',
-    'lu_two_precisions', 'flow_error', 'flow_two_precisions', 'flow_logdet_two_precisions', 'flow_two_precisions_example')]
+    'lu_two_precisions', 'flow_error', 'flow_two_precisions', 'flow_logdet_two_precisions', 'flow_two_precisions_example',
+    'round_to_nearest_even_is_standard_model', 'ieee_round_to_nearest_is_fl', 'dot_binary32_binary64', 'flow_binary32_binary64', 'half_ulp_tie')]
 RULE = ("registry x regimes (fresh, normal: moderate magnitudes) x both directions: float32 implementation vs Float32 model, float64 twin vs Float model, "
         "float32 vs float64 implementation (tolerance 64*2^-24*(1+|v|)*exp(|logabsdet|)), result dtypes; distinct = (entry, regime, direction); non-trivial = not the identity")
 EXPLANATION = ("dtype-propagation theorem on a promotion-lattice model (Properties.C19); numeric clause: theorems in the standard model of floating-point arithmetic "
-               "(every primitive of the EXECUTED program followed by a rounding with relative error <= u; IEEE conformance of torch's kernels trusted, no overflow/underflow) "
+               "(every primitive of the EXECUTED program followed by a rounding with relative error <= u; realised in Lean by round-to-nearest-even to p bits, which IEEE roundTiesToEven is proved to equal on the normal range; that torch's kernels ARE correctly rounded and stay in the normal range is trusted) "
                "for the inner product / F.linear / point-wise affine element and chains of them / LeakyReLU / Exp / log-det sums: the two precisions differ by at most the two "
                "rounding budgets times the conditioning scale (sum |x_i||w_i|); for everything else (splines, branches on rounded constants, finiteness) the clause is decided by "
                "executing the same Lean definitions in Float32 and Float against the float32 implementation and its float64 twin")
